@@ -21,7 +21,7 @@ META = {
         "thorough": {"evaluations": 20000, "distinct_nontrivial": 3000},
     },
     "exhaustive": {"quick": False, "thorough": False},
-    "wall": {"quick": 300, "thorough": 1500},
+    "wall": {"quick": 900, "thorough": 1500},
 }
 
 
